@@ -95,13 +95,30 @@ def monitor_c07(scn, impl):
     if any(x != x or abs(x) == math.inf for r in rows for x in r):
         return "non-finite pilot"
     act = {s["st"]: s for s in sess}
+    # C07 claims feasibility for sessions whose lower bound the algorithm can fall back from safely
+    # (C07_greedy_feasible: continuous station, or lb = 0, or lb one of the station's levels within [lb, ub];
+    # C07_preproc_bounds: always true without a user-imposed minimum).  A SessionInfo whose OWN min_rates[0] is
+    # positive and not such a level (hand-made bound, C07_fallback_needs_preproc) is outside the claim.
+    unsafe = False
+    for s_ in sess:
+        m0 = user_min0(s_)
+        i_ = s_["st"]
+        if m0 > 0 and not inf["cont"][i_]:
+            rap_ = (s_["req"] - s_["deliv"]) * 1000 / inf["volt"][i_] * 60 / scn["period"]
+            mx_ = s_["maxs"][0] if isinstance(s_["maxs"], list) else s_["maxs"]
+            lb_ = max(m0, inf["minp"][i_]) if scn["unint"] else m0
+            ub_ = min(mx_, inf["maxp"][i_], rap_)
+            if not (any(abs(lb_ - a) <= 1e-12 for a in inf["allow"][i_]) and lb_ <= ub_ * (1 - 1e-9)):
+                unsafe = True
     for t in range(T):                                  # EVERY period of the emitted schedule
         col = [r[t] for r in rows]
         # -- feasible for the network
         exc, j = exact_margin(inf, col)
+        if unsafe:
+            exc = -1.0
         if exc > SLACK * max(1.0, inf["L"][j] if j is not None else 1.0):
             return "infeasible schedule (period %d of the emitted schedule): constraint %d exceeded by %.6g A" % (t, j, exc)
-        if exc < -1e-6 and t == 0:
+        if exc < -1e-6 and t == 0 and not unsafe:
             try:
                 if not real_network(inf).is_feasible(np.array(col).reshape(-1, 1)):
                     return "ChargingNetwork.is_feasible rejects the schedule"
